@@ -209,13 +209,6 @@ class ArrayReductionBaseTrans(Transformation, ABC):
         for rhs_reference in orig_rhs.walk(Reference):
             if rhs_reference.symbol is lhs_symbol:
                 increment = True
-        if increment:
-            new_lhs_symbol = node.scope.symbol_table.new_symbol(
-                root_name="tmp_var", symbol_type=DataSymbol,
-                datatype=orig_lhs.datatype)
-            new_lhs = Reference(new_lhs_symbol)
-        else:
-            new_lhs = orig_lhs.copy()
 
         expr, _, mask_ref = self._get_args(node)
 
@@ -242,14 +235,19 @@ class ArrayReductionBaseTrans(Transformation, ABC):
         # one child so can safely use children[0].
         rhs = rhs_parent.children[0]
         if mask_ref:
+            # Work on a copy of the mask (given a temporary parent for
+            # the same reason as 'rhs' above) so that the original
+            # intrinsic is left untouched if the transformation is
+            # subsequently rejected.
+            mask_ref = mask_ref.copy()
+            _ = UnaryOperation.create(UnaryOperation.Operator.NOT, mask_ref)
             mask_ref_parent = mask_ref.parent
-            mask_ref_index = mask_ref.position
             for reference in mask_ref.walk(Reference):
                 try:
                     reference2arrayrange.apply(reference)
                 except TransformationError:
                     pass
-            mask_ref = mask_ref_parent.children[mask_ref_index]
+            mask_ref = mask_ref_parent.children[0]
 
         # Step 2: Put the intrinsic's extracted expression (stored in
         # the 'rhs' variable) on the rhs of an argument with one of
@@ -296,20 +294,33 @@ class ArrayReductionBaseTrans(Transformation, ABC):
         # Must be placed here to avoid circular imports
         # pylint: disable=import-outside-toplevel
         from psyclone.psyir.transformations import ArrayAssignment2LoopsTrans
+        array_trans = ArrayAssignment2LoopsTrans()
         try:
-            ArrayAssignment2LoopsTrans().apply(assignment)
+            array_trans.validate(assignment)
         except TransformationError as err:
-            # The ArrayAssignment2LoopsTrans could fail to convert the ranges,
-            # unfortunately this can not be tested before modifications to the
-            # tree (e.g. in the validate), so the best we can do is reverting
-            # to the orginal statement (with maybe some leftover tmp variable)
-            # and produce the error here.
+            # The ArrayAssignment2LoopsTrans can fail to convert the ranges.
+            # Unfortunately this can not be tested without first creating
+            # the new assignment, so revert to the original statement
+            # (nothing else has been modified yet) and produce the error
+            # here.
             assignment.replace_with(orig_assignment)
             # pylint: disable=raise-missing-from
             raise TransformationError(
                 f"ArrayAssignment2LoopsTrans could not convert the "
                 f"expression:\n{assignment.debug_string()}\n into a loop "
                 f"because:\n{err.value}")
+
+        # Only now that the conversion is known to be possible do we create
+        # the temporary needed if the assignment is an increment.
+        if increment:
+            new_lhs_symbol = assignment.scope.symbol_table.new_symbol(
+                root_name="tmp_var", symbol_type=DataSymbol,
+                datatype=orig_lhs.datatype)
+            new_lhs = Reference(new_lhs_symbol)
+        else:
+            new_lhs = orig_lhs.copy()
+
+        array_trans.apply(assignment)
         outer_loop = assignment_parent.children[assignment_position]
         if mask_ref:
             # remove mask from the rhs of the assignment
